@@ -34,6 +34,10 @@
 #define omp_get_max_threads() 1
 #endif
 
+#ifdef PGM_INDEX_VERIF
+#include "pgm_verif_hooks.hpp"
+#endif
+
 namespace pgm::internal {
 
 template<typename T>
@@ -43,6 +47,9 @@ using LargeSigned = typename std::conditional_t<std::is_floating_point_v<T>,
 
 template<typename X, typename Y>
 class OptimalPiecewiseLinearModel {
+#ifdef PGM_INDEX_VERIF
+    friend struct ::pgm_verif::Access;
+#endif
 private:
     using SX = LargeSigned<X>;
     using SY = LargeSigned<Y>;
@@ -203,6 +210,9 @@ public:
 template<typename X, typename Y>
 class OptimalPiecewiseLinearModel<X, Y>::CanonicalSegment {
     friend class OptimalPiecewiseLinearModel;
+#ifdef PGM_INDEX_VERIF
+    friend struct ::pgm_verif::Access;
+#endif
 
     Point rectangle[4];
     X first;
@@ -277,7 +287,13 @@ size_t make_segmentation(size_t n, size_t start, size_t end, size_t epsilon, Fin
     using K = typename std::invoke_result_t<Fin, size_t>;
     size_t c = 0;
     OptimalPiecewiseLinearModel<K, size_t> opt(epsilon);
+#ifdef PGM_INDEX_VERIF
+    PGM_VERIF_SEGMENTATION_SCOPE(K, n, start, end, epsilon);
+#endif
     auto add_point = [&](K x, size_t y) {
+#ifdef PGM_INDEX_VERIF
+        PGM_VERIF_ADD_POINT(x, y);
+#endif
         if (!opt.add_point(x, y)) {
             out(opt.get_segment());
             opt.add_point(x, y);
